@@ -10,11 +10,11 @@ Trace == ndJsonDeserialize(TraceFileName)
 VARIABLE l
 tvars == <<vars, l>>
 
-Cfg(x) == /\ comps' = x.comps /\ fail' = x.fail /\ chain' = <<{}>>
+Cfg(x) == /\ comps' = x.comps /\ fail' = x.fail /\ chain' = <<{}>> /\ late' = {}
           /\ pc' = "init" /\ idx' = 1 /\ log' = <<>> /\ startErr' = "pending" /\ closeErrs' = {}
 
 TraceInit == /\ l = 2 /\ Trace[1].ev = "Config"
-             /\ comps = Trace[1].comps /\ fail = Trace[1].fail /\ chain = <<{}>>
+             /\ comps = Trace[1].comps /\ fail = Trace[1].fail /\ chain = <<{}>> /\ late = {}
              /\ pc = "init" /\ idx = 1 /\ log = <<>> /\ startErr = "pending" /\ closeErrs = {}
 
 IsEvent(e) == l <= Len(Trace) /\ Trace[l].ev = e /\ l' = l + 1
